@@ -21,6 +21,8 @@
 -/
 namespace TfelVerif.C32
 
+set_option linter.unusedVariables false
+
 variable {α : Type} [DecidableEq α]
 
 /-! ### tokenize (char delimiter) -/
@@ -135,5 +137,103 @@ def startsWith (s1 s2 : List α) : Bool :=
 
 def endsWith (s1 s2 : List α) : Bool :=
   decide (s2.length ≤ s1.length) && equalFrom s2.reverse s1.reverse
+
+/-! ### convert<double>: the strings `std::stod` consumes completely, with their exact value -/
+
+/-- exact value of an accepted numeral: `fin neg m e` = ±m·10^e, `hex neg m e` = ±m·2^e -/
+inductive Num where
+  | fin (neg : Bool) (m : Nat) (e10 : Int)
+  | hex (neg : Bool) (m : Nat) (e2 : Int)
+  | inf (neg : Bool)
+  | nan (neg : Bool)
+  deriving DecidableEq, Repr
+
+/-- `isspace` in the C locale -/
+def isSpace (c : Char) : Bool :=
+  c = ' ' || c = '\t' || c = '\n' || c = '\x0b' || c = '\x0c' || c = '\r'
+
+def isDig (c : Char) : Bool := '0' ≤ c && c ≤ '9'
+def isHex (c : Char) : Bool := isDig c || ('a' ≤ c && c ≤ 'f') || ('A' ≤ c && c ≤ 'F')
+/-- n-char of `nan(n-char-sequence)` -/
+def isNChar (c : Char) : Bool := isDig c || ('a' ≤ c && c ≤ 'z') || ('A' ≤ c && c ≤ 'Z') || c = '_'
+
+/-- value of a (hexa)decimal digit -/
+def digVal (c : Char) : Nat :=
+  if isDig c then c.toNat - '0'.toNat
+  else if 'a' ≤ c && c ≤ 'f' then c.toNat - 'a'.toNat + 10
+  else c.toNat - 'A'.toNat + 10
+
+/-- Horner value of a digit string in base `b` -/
+def natOf (b : Nat) (ds : List Char) : Nat := ds.foldl (fun a d => a * b + digVal d) 0
+
+/-- ASCII lower-casing (for the case-insensitive keywords) -/
+def lower (c : Char) : Char := if 'A' ≤ c && c ≤ 'Z' then Char.ofNat (c.toNat + 32) else c
+
+/-- optional sign: `(negative, rest)` -/
+def signOf : List Char → Bool × List Char
+  | '+' :: r => (false, r)
+  | '-' :: r => (true, r)
+  | r => (false, r)
+
+/-- exponent part, complete: `""` ↦ 0, `[mk][+-]?digits+` ↦ its value, anything else rejected -/
+def parseExp (mk : Char) : List Char → Option Int
+  | [] => some 0
+  | c :: rest =>
+    if lower c = mk then
+      let (neg, ds) := signOf rest
+      if ds ≠ [] ∧ ds.all isDig then
+        some (if neg then - (natOf 10 ds : Int) else (natOf 10 ds : Int))
+      else none
+    else none
+
+/-- mantissa `digits+ [. digits*] | . digits+` in the digit class `dg`:
+`(digits of integer and fractional part, number of fractional digits, rest)` -/
+def parseMant (dg : Char → Bool) (s : List Char) : Option (List Char × Nat × List Char) :=
+  let ip := s.takeWhile dg
+  match s.dropWhile dg with
+  | '.' :: r =>
+    let fp := r.takeWhile dg
+    if ip = [] ∧ fp = [] then none else some (ip ++ fp, fp.length, r.dropWhile dg)
+  | r => if ip = [] then none else some (ip, 0, r)
+
+/-- decimal floating literal, complete -/
+def parseDec (neg : Bool) (s : List Char) : Option Num :=
+  match parseMant isDig s with
+  | none => none
+  | some (ds, nf, r) =>
+    match parseExp 'e' r with
+    | none => none
+    | some x => some (.fin neg (natOf 10 ds) (x - nf))
+
+/-- hexadecimal floating literal after the `0x` prefix, complete -/
+def parseHex (neg : Bool) (s : List Char) : Option Num :=
+  match parseMant isHex s with
+  | none => none
+  | some (ds, nf, r) =>
+    match parseExp 'p' r with
+    | none => none
+    | some x => some (.hex neg (natOf 16 ds) (x - 4 * nf))
+
+/-- `nan` suffix: `""` or `(n-char-sequence)` -/
+def nanSuffix : List Char → Bool
+  | [] => true
+  | '(' :: r => r ≠ [] && r.getLast? = some ')' && r.dropLast.all isNChar
+  | _ => false
+
+/-- what follows white space and sign -/
+def parseBody (neg : Bool) (s : List Char) : Option Num :=
+  let l := s.map lower
+  if l = "inf".toList ∨ l = "infinity".toList then some (.inf neg)
+  else if l.take 3 = "nan".toList then
+    (if nanSuffix (s.drop 3) then some (.nan neg) else none)
+  else if l.take 2 = "0x".toList then parseHex neg (s.drop 2)
+  else parseDec neg s
+
+/-- `convert<double>(s)` before rounding to `double`: `none` = `std::invalid_argument` -/
+def convertD (s : List Char) : Option Num :=
+  if s = [] then none
+  else
+    let (neg, b) := signOf (s.dropWhile isSpace)
+    parseBody neg b
 
 end TfelVerif.C32
